@@ -153,10 +153,33 @@ class ServerWorld(c19.World):
         if started is None:
             return
         srv, task = started
+        self.serving_tasks = [task]
+        for period in range(sc.get("periods", 1)):
+            if period:
+                # the same server object serves again after it was stopped and all its clients left
+                self.round = period
+                started = await self.restart_server(srv, task)
+                if started is None:
+                    return
+                srv, task = started
+                self.serving_task = task
+                self.stopped = False
+                self.sit["C16.served_again"] += 1
+            await self._period(period)
+            for cl in self.clients.values():
+                if cl.writer is not None and not cl.writer.is_closing():
+                    await self.disconnect(cl, "close")
+            task.cancel()
+            self.stopped = True
+            await self.settle()
+
+    async def _period(self, period):
+        sc = self.sc
         cls = type(self.pool)
         members = public_members(cls)
+        base = period * 10
         for act in sc["order"]:
-            kind, c = act[0], act[1]
+            kind, c = act[0], act[1] + base
             if kind == "open":
                 await self.connect(c, hello=False)
             elif kind == "connect":
@@ -168,26 +191,20 @@ class ServerWorld(c19.World):
         # every client that shook hands must be able to use the command surface
         import random as _r
 
-        rng = _r.Random(sc["seed"])
+        rng = _r.Random(sc["seed"] + period)
         for c, cl in sorted(self.clients.items()):
-            if not cl.open:
+            if not cl.open or c < base:
                 continue
             for n, member in rng.sample(members, min(4, len(members))):
                 cmd = n.replace("_", "-")
                 got = await self.command(cl, f"{cmd} -h")
                 txt = got.decode(errors="replace")
                 if not squash(txt).startswith("usage:" + squash(cmd)):
-                    self.violate("C16.member_help", f"client {c} (handshake order {sc['order']}): '{cmd} -h' answered {txt[:80]!r}")
+                    self.violate("C16.member_help", f"client {c} (handshake order {sc['order']}, serving period {period}): '{cmd} -h' answered {txt[:80]!r}")
                     break
                 self.sit["C16.member_help_ok"] += 1
             else:
                 self.sit["C16.socket_clients_ok"] += 1
-        for cl in self.clients.values():
-            if cl.writer is not None and not cl.writer.is_closing():
-                await self.disconnect(cl, "close")
-        task.cancel()
-        self.stopped = True
-        await self.settle()
 
 
 def gen_server_case(rng):
@@ -204,4 +221,5 @@ def gen_server_case(rng):
             order.append(["hello", pending.pop(rng.randrange(len(pending)))])
     while pending:
         order.append(["hello", pending.pop(rng.randrange(len(pending)))])
-    return {"server": True, "transport": rng.choice(["tcp", "unix"]), "cls": rng.choice(["T", "S"]), "order": order, "nclients": n, "seed": rng.getrandbits(32)}
+    return {"server": True, "transport": rng.choice(["tcp", "unix"]), "cls": rng.choice(["T", "S"]), "order": order, "nclients": n, "seed": rng.getrandbits(32),
+            "periods": rng.choice([1, 1, 2, 3])}
